@@ -40,6 +40,7 @@ type SharedStateI[T PersistentType] interface {
 	AtomicWindowReset(string, time.Duration) error
 	AtomicIncr(string, int64) (bool, error)
 	AtomicDecr(string) error
+	AtomicDecrBy(string, int64) error
 
 	AtomicSAddWithMaxValuesAllowed(string, string, int64) (bool, error)
 	SRem(string, string) error
